@@ -70,10 +70,15 @@ def children(prog):
     return (prog[1],)
 
 
-def walk(prog):
-    """Post-order iteration over all nodes."""
+def walk(prog, _seen=None):
+    """Post-order iteration over all distinct nodes (shared sub-programs are visited once)."""
+    if _seen is None:
+        _seen = set()
+    if id(prog) in _seen:
+        return
+    _seen.add(id(prog))
     for c in children(prog):
-        yield from walk(c)
+        yield from walk(c, _seen)
     yield prog
 
 
@@ -552,3 +557,13 @@ def count_op_nodes(rel):
     from lsst.daf.relation import BinaryOperationRelation, UnaryOperationRelation
 
     return sum(1 for r in lib_nodes(rel) if isinstance(r, (UnaryOperationRelation, BinaryOperationRelation)))
+
+
+def describe_case(universe, leaves, prog, **extra):
+    d = {
+        "tags": [f"{t.qualified_name}{'' if t.is_key else '*'}#{t.h}" for t in universe],
+        "leaves": fmt_leaves(leaves),
+        "program": fmt(prog, leaves),
+    }
+    d.update(extra)
+    return d
